@@ -68,7 +68,7 @@ PROVED = {
     "C11": "for ARBITRARY error lists the tree returns at every path exactly the errors with that path incl. nested children, holds nothing else, has a node exactly for prefixes of stored paths, is empty iff no errors, and look-ups by definition agree; for validator outputs the tree content is the flattening.",
     "C12": "document paths extend the validator's path; code and rule come from one definition; value and constraint are the field's value and the resolved rule's constraint; children iff group definition. PARTIAL: schema-path resolution is decided by the oracle.",
     "C13": "add() deep-copies first (extracted shape), rendering is a function of the error list and leaves it untouched, one insertion adds one message, a leaf error adds it under its document path only, and for error forests of ANY nesting the number of rendered messages is: one per non-group error, one per *of error plus what its definitions' errors contribute, for a group error what its children contribute (render_count). PARTIAL: WHERE nested messages are placed is decided by the node-by-node diff against the real handler.",
-    "C14": "contexts that differ only in HOW field rule sets are given (inline or by name resolving to the same rules) file the same errors, evaluate excludes alike, inherit the same *of rules and compute the same required set. PARTIAL: whole-schema substitution at depth is decided by the oracle.",
+    "C14": "giving ANY of a schema level's field rule sets by the name of a registry entry that holds them leaves validate(document, update, normalize) and normalized(document) of a fresh validator unchanged -- verdict, processed document, every error with paths / constraint / children, an escaping exception -- for every document, configuration and fuel (C14_fields_by_name_process_alike, through every rule handler, the normalization pipeline and every child validator); per use site: same errors, excludes, inherited *of rules, required set. PARTIAL: references INSIDE constraints (sub-schemas, bulk rule sets, items) show in the constraint attribute of errors and are decided by the inline-vs-reference oracle, as are acceptance and self-referential definitions.",
     "C15": "canonical schemas of any nesting are fixed points of expand through every recursion position; an <of>_<rule> key expands to the documented list, split at the first underscore. PARTIAL: equality of outcomes is decided by the variant oracle on the real code.",
     "C16": "per-class cache and same-class child factory (extracted facts); a child inherits the whole configuration; a rule dispatches to the same handler at every depth. PARTIAL: Python-level subclass isolation is decided by the oracle.",
     "C17": "the defaults work-list terminates within n(n+1)+1 iterations for ARBITRARY setters; an exception other than KeyError is local to its field; the loop in the source is the modelled one (extracted shape tokens); and the LEAST FIXPOINT: for dependency-graph setters over any number of fields, any graph, any fields already present and any order of the pending list, exactly the obtainable fields end up set and exactly the pending fields that are not resolvable carry the error at their own path; two orders give the same result (wl_least_fixpoint, default_setters_least_fixpoint, order_irrelevant). PARTIAL: the VALUES the set fields receive are decided by the graph oracle.",
